@@ -119,6 +119,12 @@ fn build(scen: &Value, m: &Map) -> Result<World, String> {
                 macro_rules! ax {
                     ($n:literal, $v:ident) => {{
                         let dev = leak(Axle::<$n, E>::new());
+                        // a safe accessor must not hand out a reference past the axle's terminals
+                        for bad in [$n, $n + 1, $n + 7] {
+                            if catch(|| dev.get_terminal(bad)).is_ok() {
+                                return Err(format!("OUT-OF-RANGE Axle::<{}>::get_terminal({}) returned a reference instead of panicking", $n, bad));
+                            }
+                        }
                         for k in 0..$n {
                             terms[ts[k]] = Some(dev.get_terminal(k));
                         }
@@ -255,6 +261,10 @@ fn replay(beh: &Value, line: usize, m: &Map, rep: &mut Report, observe: &str) {
     };
     let mut w = match catch(|| build(scen, m)) {
         Ok(Ok(w)) => w,
+        Ok(Err(e)) if e.starts_with("OUT-OF-RANGE") => {
+            bad(rep, 0, "index out of range in a safe accessor", json!("panic"), json!(e));
+            return;
+        }
         Ok(Err(e)) => {
             eprintln!("cannot build scenario: {e}");
             std::process::exit(2)
